@@ -190,7 +190,10 @@ func c14ValidFragments(r *rand.Rand, base *model.Schema, tag string, n int) []st
 			// an extension that carries a description of its own
 			out = append(out, fmt.Sprintf("\"described extension %s\"\nextend type %s { xe%s: Boolean }", id, objs[r.Intn(len(objs))], id))
 		case 9:
-			if len(scalars) > 0 {
+			if r.Intn(3) == 0 {
+				// a built-in scalar carries the directive (Int, Float, ... are scalars like any other)
+				out = append(out, fmt.Sprintf("directive @xs%s on SCALAR\nextend scalar %s @xs%s", id, []string{"Int", "Float", "Boolean", "ID", "String", "Time", "Int64"}[r.Intn(7)], id))
+			} else if len(scalars) > 0 {
 				out = append(out, fmt.Sprintf("directive @xs%s on SCALAR\nextend scalar %s @xs%s", id, scalars[r.Intn(len(scalars))], id))
 			} else {
 				out = append(out, fmt.Sprintf("scalar NewSc%s", id))
